@@ -816,3 +816,124 @@ def gen_ff_queries(rng, rules, k):
         path = "/" + "/".join(comps) + ("/" if comps and path.endswith("/") else "")
         out.append((user, path))
     return out
+
+
+# ------------------------------------------------------------------------------------------ two-thread interleaving monitor
+class Interleaver:
+    """Runs callables in real threads under a deterministic scheduler: a `sys.settrace` line tracer in each thread
+    pauses before every line of the traced source files; the main thread decides who runs next.
+    A schedule is a list of (thread index, number of lines to run or None = to completion)."""
+
+    def __init__(self, files):
+        self.files = tuple(files)
+
+    def _traced(self, frame):
+        return frame.f_code.co_filename.endswith(self.files)
+
+    def count_lines(self, fn):
+        import sys
+        n = [0]
+
+        def local(frame, event, arg):
+            if event == "line":
+                n[0] += 1
+            return local
+
+        def glob(frame, event, arg):
+            return local if self._traced(frame) else None
+        old = sys.gettrace()
+        sys.settrace(glob)
+        try:
+            try:
+                fn()
+            except Exception:
+                pass
+        finally:
+            sys.settrace(old)
+        return n[0]
+
+    def run(self, fns, schedule, timeout=20):
+        import sys
+        import threading
+        k = len(fns)
+        go = [threading.Semaphore(0) for _ in range(k)]
+        back = threading.Semaphore(0)
+        budget = [None] * k
+        done = [False] * k
+        results = [None] * k
+        ran = [0] * k
+
+        def pause(i):
+            back.release()
+            go[i].acquire()
+
+        def body(i):
+            go[i].acquire()
+
+            def local(frame, event, arg):
+                if event == "line":
+                    if budget[i] is not None:
+                        if budget[i] == 0:
+                            pause(i)
+                        if budget[i] is not None:
+                            budget[i] -= 1
+                    ran[i] += 1
+                return local
+
+            def glob(frame, event, arg):
+                return local if self._traced(frame) else None
+            sys.settrace(glob)
+            try:
+                try:
+                    results[i] = ("ok", fns[i]())
+                except Exception as e:
+                    results[i] = ("exc", type(e).__name__)
+            finally:
+                sys.settrace(None)
+                done[i] = True
+                back.release()
+        threads = [threading.Thread(target=body, args=(i,), daemon=True) for i in range(k)]
+        for t in threads:
+            t.start()
+        executed = []
+        for i, n in list(schedule) + [(j, None) for j in range(k)]:
+            if done[i]:
+                continue
+            budget[i] = n
+            before = ran[i]
+            go[i].release()
+            if not back.acquire(timeout=timeout):
+                raise RuntimeError("interleaver: thread %d did not yield" % i)
+            executed.append((i, ran[i] - before))
+        for t in threads:
+            t.join(timeout)
+        return results, executed
+
+
+def schedules_two(na, nb, max_two, rng):
+    """All schedules of two threads with one preemption (first runs i lines, the other runs to completion, first resumes),
+    plus two-preemption schedules (the other is itself preempted after j lines): all of them when they are at most
+    `max_two`, else a seeded sample."""
+    out = []
+    for first, n1 in ((0, na), (1, nb)):
+        for i in range(0, n1 + 1):
+            out.append([(first, i), (1 - first, None), (first, None)])
+    two = []
+    for first, n1, n2 in ((0, na, nb), (1, nb, na)):
+        for i in range(0, n1 + 1):
+            for j in range(1, n2):
+                two.append([(first, i), (1 - first, j), (first, None), (1 - first, None)])
+    if len(two) > max_two:
+        two = rng.sample(two, max_two)
+    return out + two
+
+
+INTERLEAVE_SCENARIOS = [
+    ([{"user": ".+", "collection": "", "permissions": "R"}, {"user": ".+", "collection": "{user}", "permissions": "RW"},
+      {"user": ".+", "collection": "{user}/[^/]+", "permissions": "rw"}], ("alice", "/alice/cal/"), ("bob", "/bob/cal/")),
+    ([{"user": ".+", "collection": "{user}(/.*)?", "permissions": "RW"}], ("alice", "/bob/"), ("bob", "/bob/")),
+    ([{"user": ".+@([^@]+)", "collection": "{0}/[^/]+", "permissions": "r"}, {"user": ".*", "collection": "{user}/.*", "permissions": "W"}],
+     ("a@x.org", "/x.org/cal"), ("b@y.org", "/x.org/cal")),
+    ([{"user": "(bob)|(alice)", "collection": "{user}", "permissions": "RW"}, {"user": ".*", "collection": "public", "permissions": "i"}],
+     ("alice", "/alice"), ("", "/public")),
+]
